@@ -346,12 +346,49 @@ def onboard_carried_out(run, rid="R7"):
                           "device (the bring-up goes on, the admin tool says `unlocked`) or the other way round")
 
 
+def _verdict_respected(run, rid="R7"):
+    """The admin commands report what the device said: a refused unlock / PIN change is an error, an accepted one is not."""
+    P, A = run.P, run.A
+    from sa.query import make_facts
+    for q, meth, what in (("admin.unlock.do_unlock", "unlock", "unlock"), ("admin.changepin.do_changepin", "new_pin", "PIN change")):
+        fn = P.func(q)
+        g = A.cfg(fn, None)
+        noexc = lambda a, b: not g.is_exc_edge(a, b)   # noqa: E731
+        n_tests = 0
+        for n in g.nodes:
+            if n.kind not in ("T", "F") or n.cond is None:
+                continue
+            test = n.cond.ast
+            # a verdict first put in a local (`changed = hsm.new_pin(pin); if not changed`) is that call's result
+            class _Sub(ast.NodeTransformer):
+                def visit_Name(s_, node):
+                    ds = defs_of(A, fn, node.id) if isinstance(node.ctx, ast.Load) else []
+                    if len(ds) == 1 and isinstance(getattr(ds[0], "value", None), ast.Call) and call_name(ds[0].value) == meth:
+                        return ds[0].value
+                    return node
+            import copy as _copy
+            test = _Sub().visit(_copy.deepcopy(test))
+            for f in make_facts(n.kind, test, fn, n):
+                if f.kind == "call" and call_name(f.expr) == meth and isinstance(f.expr.func, ast.Attribute) and norm(f.expr.func.value) == "hsm":
+                    n_tests += 1
+                    reach_exit = g.exit in g.reachable(n, edge_ok=noexc)
+                    if f.pol:
+                        run.check(rid, reach_exit, f"{fn.name}: an accepted {what} lets the command complete", key=f"{fn.name}|{meth}|accepted", where=fn.loc(n.cond.ast),
+                                  message=f"{fn.name}: when the device accepted the {what} the command cannot complete normally (it raises): the operator is told the {what} failed "
+                                          "although the device carried it out")
+                    else:
+                        run.check(rid, not reach_exit, f"{fn.name}: a refused {what} is an error", key=f"{fn.name}|{meth}|refused", where=fn.loc(n.cond.ast),
+                                  message=f"{fn.name}: when the device refused the {what} the command can still complete normally: the operator is told it succeeded")
+        run.floor(rid, f"{fn.name}: outcome edges of hsm.{meth}(..)", n_tests, 2)
+
+
 def run(run):
     P, A = run.P, run.A
     F = Facts(A)
     PV = Prov(A)
     _onboard(run, F, PV)
     onboard_carried_out(run, "R7")
+    _verdict_respected(run, "R7")
     _unlock(run, F, PV)
     # "only to a device that is in bootloader mode ... is not yet onboarded / only to an onboarded device": mode and onboarded flag are the device's own
     # answers for every dongle class (rule of C09, prefix B.)
